@@ -16,7 +16,9 @@ type StmtGen struct {
 	Pool []string // identifiers to use instead of the built-in pool
 }
 
-var identPool = []string{"t1", "t2", "orders", "col_a", "x", "y", "name", "qty", "a", "b", "c", "is_ok", "T", "Mixed_Case", "tbl9", "café", "straße", "имя2", "列१x", "tbl٣", "db１"}
+var identPool = []string{"t1", "t2", "orders", "col_a", "x", "y", "name", "qty", "a", "b", "c", "is_ok", "T", "Mixed_Case", "tbl9", "café", "straße", "имя2", "列१x", "tbl٣", "db１",
+	// ordinary words that look like keywords or that the grammar mentions without reserving them
+	"databases", "Databases", "DATABASES", "tables", "selects", "orderby", "groups", "limits", "nulls", "trues", "int8", "values1", "shows", "keys", "counts", "average"}
 var oddIdents = []string{"my col", "select", "from", "a-b", "1st", "o'hara", "semi;colon"}
 
 func (g *StmtGen) ident() string {
